@@ -322,7 +322,38 @@ func checkParse(c Case) (f *evid.Failure) {
 	if !bytes.Equal(rest, l.stream[next:]) || string(v) != string(c.Vals[0]) {
 		return fail("Parse returns as remainder exactly the bytes after the first value and its trailing whitespace", fmt.Sprintf("value %q, %d bytes left", short(string(v)), len(rest)), fmt.Sprintf("value %q, %d bytes left", short(string(c.Vals[0])), len(l.stream)-next), "parse-remainder")
 	}
+	// the remainder does not depend on what the value is decoded into: a typed target that the (valid)
+	// first value does not fit - reported as an error, or not - leaves the same bytes
+	for _, tgt := range mismatchTargets(c.Vals[0]) {
+		in := append([]byte{}, l.stream...)
+		rest, err := segjson.Parse(in, tgt, 0)
+		if !bytes.Equal(rest, l.stream[next:]) {
+			return fail("Parse returns as remainder exactly the bytes after the first value and its trailing whitespace (typed target the value does not fit)", fmt.Sprintf("into %T: err=%v, %d bytes left", tgt, err, len(rest)), fmt.Sprintf("%d bytes left", len(l.stream)-next), "parse-remainder-mismatch")
+		}
+	}
 	return nil
+}
+
+// mismatchTargets returns fresh typed targets for a valid value, most of which it does not fit.
+func mismatchTargets(val []byte) []any {
+	type S struct {
+		A int
+		B string
+	}
+	switch val[0] {
+	case '"':
+		return []any{new(int), new([]int), new(S), new(bool)}
+	case '{':
+		return []any{new(int), new([]int), new(string), new(map[string]string), new(S)}
+	case '[':
+		return []any{new(int), new(map[string]int), new(string), new(S), new([]string), new([2]bool)}
+	case 't', 'f':
+		return []any{new(int), new(string), new([]int), new(S)}
+	case 'n':
+		return []any{new(int), new(S)}
+	default:
+		return []any{new(string), new(bool), new([]int), new(S), new(uint8)}
+	}
 }
 
 // ------------------------------------------------------------------ generation
@@ -561,6 +592,14 @@ func TestReplay(t *testing.T) {
 		if err != nil {
 			t.Fatalf("replay %s: %v", p, err)
 		}
+		var rc RemCase
+		if err := stdjson.Unmarshal(raw, &rc); err == nil && rc.Kind == "remainder" {
+			evid.Eval(1)
+			if f := checkRemainder(rc); f != nil {
+				evid.Violation(t, "Replay", rc, f)
+			}
+			continue
+		}
 		var c Case
 		if err := stdjson.Unmarshal(raw, &c); err != nil || c.Mode == "" {
 			continue
@@ -584,6 +623,11 @@ func TestKnownFindings(t *testing.T) {
 	cs := append([]evid.Class{}, classes...)
 	for _, f := range evid.Findings() {
 		if len(f.Witness) == 0 {
+			continue
+		}
+		var rc RemCase
+		if err := stdjson.Unmarshal(f.Witness, &rc); err == nil && rc.Kind == "remainder" {
+			cs = append(cs, evid.Class{Name: f.Class, Witness: func() *evid.Failure { return checkRemainder(rc) }})
 			continue
 		}
 		var c Case
